@@ -5,7 +5,7 @@
 import ast
 
 from report import AnalysisError
-from pyfront import (Repo, CFG, canon, guard_literals, attr_accesses,
+from pyfront import (Repo, CFG, canon, guard_literals, attr_accesses, literals,
                      qualname, calls_in, TK)
 from pyutil import (params, deep_subst, find_calls, tuple_pos_def, returns,
                     lit_fmt, rel, stores_to_attr, name_of, kwarg)
@@ -153,6 +153,7 @@ def resolver(L, repo, meth, fixed_attr, pos):
 
 
 def r2_setfh_order(L, repo):
+    from symfwd import Fwd
     ci, fd = repo.need_method("ctrl_if_trx", "CTRLInterfaceTRX", "parse_cmd")
     F = rel("ctrl_if_trx")
     L.unit(F)
@@ -164,60 +165,60 @@ def r2_setfh_order(L, repo):
     for c in calls:
         if len(c.args) != 3:
             raise AnalysisError("enable_fh call shape changed")
-        ma = c.args[2]
-        # walk the definition chain of the MA argument in statement order
-        chain = []
-        if isinstance(ma, ast.Name):
-            blk = c
-            for n in ast.walk(fd):
-                if isinstance(n, ast.Assign) and len(n.targets) == 1 and \
-                        name_of(n.targets[0]) == ma.id and n.lineno < c.lineno:
-                    chain.append(n)
-            chain.sort(key=lambda n: n.lineno)
-        else:
-            raise AnalysisError("SETFH: mobile allocation argument unclassifiable")
-        if len(chain) != 2:
-            raise AnalysisError("SETFH: expected list parse + pairing (2 defs), found %d" % len(chain))
-        parse, pair = chain[0].value, chain[1].value
-        # parse: [int(f) * 1000 for f in request[3:]]
-        ok_src = False
-        if isinstance(parse, ast.ListComp) and len(parse.generators) == 1:
-            ok_src = canon(parse.generators[0].iter) == "%s[3:]" % req
-        L.ob("C02.R2", F, fn, "SETFH channel list starts after HSN and MAIO (request[3:])",
-             "%s[3:]" % req, canon(parse.generators[0].iter) if isinstance(parse, ast.ListComp) else canon(parse),
-             ok_src, chain[0].lineno)
-        # pair: [(rx, tx) for rx, tx in zip(ma[0::2], ma[1::2])]
-        desc = None
-        if isinstance(pair, ast.ListComp) and len(pair.generators) == 1 and not pair.generators[0].ifs:
-            g = pair.generators[0]
-            if isinstance(g.iter, ast.Call) and canon(g.iter.func) == "zip" and len(g.iter.args) == 2 \
-                    and isinstance(g.target, ast.Tuple) and isinstance(pair.elt, ast.Tuple) \
-                    and len(g.target.elts) == 2 and len(pair.elt.elts) == 2:
-                def sl(e):
-                    if isinstance(e, ast.Subscript) and isinstance(e.slice, ast.Slice) and \
-                            canon(e.value) == ma.id:
-                        s = e.slice
-                        lo = 0 if s.lower is None else (s.lower.value if isinstance(s.lower, ast.Constant) else "?")
-                        hi = None if s.upper is None else "?"
-                        st = 1 if s.step is None else (s.step.value if isinstance(s.step, ast.Constant) else "?")
-                        return (lo, hi, st)
-                    return "?"
-                tnames = [canon(e) for e in g.target.elts]
-                enames = [canon(e) for e in pair.elt.elts]
-                src = [sl(a) for a in g.iter.args]
-                # element k of the pair comes from which stride start?
-                starts = []
-                for en in enames:
-                    if en in tnames:
-                        starts.append(src[tnames.index(en)])
-                    else:
-                        starts.append("?")
-                desc = starts
-        if desc is None:
-            raise AnalysisError("SETFH: pairing expression unclassifiable: %s" % canon(pair))
+        # the SETFH branch: forward-substitute its straight-line definitions into the MA argument
+        br = c
+        while br is not None and not (isinstance(br, ast.If) and any("'SETFH'" in t for t, p in literals(br.test, True))):
+            br = getattr(br, "_parent", None)
+        if br is None:
+            raise AnalysisError("SETFH branch not found around enable_fh()")
+        env = {}
+        for st in br.body:
+            if st.lineno >= c.lineno:
+                break
+            if isinstance(st, ast.Assign) and len(st.targets) == 1 and isinstance(st.targets[0], ast.Name):
+                from symfwd import subst_expr
+                env[st.targets[0].id] = subst_expr(st.value, env)
+        from symfwd import subst_expr
+        ma = subst_expr(c.args[2], env)
+        # unwrap list(...) and the identity comprehension [(a, b) for a, b in X]
+        order = None      # which zip operand feeds pair element 0 / 1
+        e = ma
+        if isinstance(e, ast.Call) and canon(e.func) in ("list", "tuple") and len(e.args) == 1:
+            e = e.args[0]
+        if isinstance(e, ast.ListComp) and len(e.generators) == 1 and not e.generators[0].ifs and \
+                isinstance(e.elt, ast.Tuple) and isinstance(e.generators[0].target, ast.Tuple) and \
+                len(e.elt.elts) == 2 and len(e.generators[0].target.elts) == 2:
+            tn = [canon(x) for x in e.generators[0].target.elts]
+            en = [canon(x) for x in e.elt.elts]
+            if sorted(tn) == sorted(en):
+                order = [tn.index(x) for x in en]
+                e = e.generators[0].iter
+        elif isinstance(e, ast.Call) and canon(e.func) == "zip":
+            order = [0, 1]
+        if not (isinstance(e, ast.Call) and canon(e.func) == "zip" and len(e.args) == 2) or order is None:
+            raise AnalysisError("SETFH: pairing expression unclassifiable: %s" % canon(ma)[:80])
+
+        def sl(x):
+            if isinstance(x, ast.Subscript) and isinstance(x.slice, ast.Slice):
+                s_ = x.slice
+                lo = 0 if s_.lower is None else (s_.lower.value if isinstance(s_.lower, ast.Constant) else "?")
+                hi = None if s_.upper is None else "?"
+                stp = 1 if s_.step is None else (s_.step.value if isinstance(s_.step, ast.Constant) else "?")
+                return (lo, hi, stp), x.value
+            return "?", None
+        srcs = [sl(a) for a in e.args]
+        bases = [canon(b) if b is not None else None for _, b in srcs]
+        desc = [srcs[i][0] for i in order]
         L.require("C02.R2", F, fn,
                   "SETFH builds (Rx, Tx) pairs in the documented order <RXFn> <TXFn> (pair[0]=even, pair[1]=odd positions)",
-                  [(0, None, 2), (1, None, 2)], desc, line=chain[1].lineno)
+                  [(0, None, 2), (1, None, 2)], desc, line=c.lineno)
+        L.ob("C02.R2", F, fn, "both pair elements are taken from the same parsed list", "same list", bases, bases[0] == bases[1] and bases[0] is not None,
+             c.lineno)
+        base = srcs[0][1]
+        ok_src = isinstance(base, ast.ListComp) and len(base.generators) == 1 and canon(base.generators[0].iter) == "%s[3:]" % req
+        L.ob("C02.R2", F, fn, "SETFH channel list starts after HSN and MAIO (request[3:])",
+             "%s[3:]" % req, canon(base.generators[0].iter) if isinstance(base, ast.ListComp) else canon(base) if base is not None else None,
+             ok_src, c.lineno)
 
 
 def r3_ticks(L, repo):
